@@ -5,7 +5,7 @@ import itertools, collections, copy, json, io, contextlib
 from common import *
 
 RULE = ("histories of add_entry / add_entries / remove_entry over an alphabet of valid, invalid, duplicate-formula, "
-        "duplicate-SMILES, charged, heavy-element, empty-string and non-canonically spelled compounds, bulk adds with a label clash inside the batch: ALL histories up to length 3 (quick) / 4 (thorough) "
+        "duplicate-SMILES, charged, heavy-element, isotope-labelled, empty-string and non-canonically spelled compounds, bulk adds with a label clash inside the batch, removals that name some entry's SMILES instead of a formula: ALL histories up to length 3 (quick) / 4 (thorough) "
         "from the empty database, random histories up to length 40 from both shipped databases; the database after the history and "
         "every returned rejection list are compared with the model.  Non-trivial: a history with at least one accepted and one "
         "rejected operation; distinct = distinct (start, history).")
@@ -21,7 +21,9 @@ ALPHA = [("H2O", "O"), ("HCl", "Cl"), ("H2O", "OO"), ("water", "O"), ("bad", "XX
          # non-canonical spellings (the database stores the SMILES as offered) and a second label / a second spelling for them
          ("CH4O", "OC"), ("MeOH", "OC"), ("methanol", "CO"), ("nitrate", "[N+](=O)([O-])[O-]"), ("NO3-", "[N+](=O)([O-])[O-]"), ("boric", "B(O)(O)O"),
          # the same label for different compounds (inside one bulk add the first is accepted, the second rejected)
-         ("acid", "CC(=O)O"), ("acid", "OC=O"), ("HCl", "C1")]
+         ("acid", "CC(=O)O"), ("acid", "OC=O"), ("HCl", "C1"),
+         # isotope-labelled hydrogens stay atoms of the graph (a hydrogen counter that also walks the neighbours counts them twice)
+         ("D2O", "[2H]O[2H]"), ("DCl", "[2H]Cl"), ("CD3OD", "[2H]OC([2H])([2H])[2H]")]
 
 
 def atoms_of(s):
@@ -94,7 +96,9 @@ def run(ctx):
 
     ops_alpha = [("add", f, s) for f, s in ALPHA[:9]] + [("add",) + ALPHA[14]] + [("remove", "H2O"), ("remove", "OH-"), ("remove", "nope"),
                  ("many", [ALPHA[0], ALPHA[4], ALPHA[5]]), ("many", [ALPHA[3], ALPHA[1]]),
-                 ("add",) + ALPHA[18], ("add",) + ALPHA[19], ("many", [ALPHA[24], ALPHA[25]]), ("many", [ALPHA[1], ALPHA[26], ALPHA[20]])]
+                 ("add",) + ALPHA[18], ("add",) + ALPHA[19], ("many", [ALPHA[24], ALPHA[25]]), ("many", [ALPHA[1], ALPHA[26], ALPHA[20]]),
+                 # removal names a FORMULA: a string that is only some entry's SMILES ("O" = water's SMILES, "OC" = methanol's) names nothing
+                 ("remove", "O"), ("remove", "OC"), ("add",) + ALPHA[27]]
     L = 3 if ctx.quick() else 4
     hist = []
     for n in range(1, L + 1):
@@ -115,7 +119,7 @@ def run(ctx):
             elif r < 0.65:
                 seq.append(("many", [ctx.rng.choice(ALPHA) for _ in range(ctx.rng.randint(0, 3))]))
             else:
-                pool = [d["formula"] for d in starts[start]] + [f for f, _ in ALPHA]
+                pool = [d["formula"] for d in starts[start]] + [f for f, _ in ALPHA] + [d["smiles"] for d in ctx.rng.sample(starts[start], min(3, len(starts[start])))] + ["O", "N", "CO"]
                 seq.append(("remove", ctx.rng.choice(pool)))
         hist.append((start, seq))
     ctx.count("H", "random_histories", nrand)
